@@ -105,6 +105,9 @@ func (p *Parser) Parse(llk *LLk, st *semantic.Statement) error {
 	if !b {
 		return fmt.Errorf("Parser.Parse: inconsitent parser, no error found, and no tokens were consumed")
 	}
+	if !llk.CanAccept(lexer.ItemEOF) {
+		return fmt.Errorf("Parser.Parse: unexpected token %s after the end of the statement", llk.Current())
+	}
 	return nil
 }
 
